@@ -86,8 +86,58 @@ def run(REG, tier, seed, jobs):
     return {'parts': parts}
 
 
+BLK = 65536
+
+
+def _content(spec):
+    """('k', n): n bytes of the repeating pattern; ('k', n, tail): the same followed by tail"""
+    base = (b'0123456789abcdef' * (spec[1] // 16 + 1))[:spec[1]]
+    return base + (spec[2].encode() if len(spec) > 2 else b'')
+
+
+def _rid_chunk(chunk):
+    """replace_if_different on real files: afterwards dst holds the NEW content whatever it held before (history
+    independence), the temporary is gone, and an unchanged dst is not touched (same inode and mtime)"""
+    import os, tempfile
+    from mesonbuild.utils.universal import replace_if_different
+    fails, nt = [], 0
+    for old, new in chunk:
+        with tempfile.TemporaryDirectory() as d:
+            dst, tmp = os.path.join(d, 'out'), os.path.join(d, 'out~')
+            if old is not None:
+                open(dst, 'wb').write(_content(old))
+                os.utime(dst, ns=(10**18, 10**18))
+                st0 = os.stat(dst)
+            newc = _content(new)
+            open(tmp, 'wb').write(newc)
+            nt += old is not None and _content(old) != newc
+            try:
+                replace_if_different(dst, tmp)
+            except Exception as ex:
+                fails.append({'case': {'old': old, 'new': new}, 'detail': f'raised {type(ex).__name__}: {ex}'})
+                continue
+            got = open(dst, 'rb').read() if os.path.exists(dst) else None
+            if got != newc:
+                fails.append({'case': {'old': old, 'new': new}, 'detail': f'destination holds {None if got is None else len(got)} bytes (stale) instead of the {len(newc)} newly generated bytes'})
+            if os.path.exists(tmp):
+                fails.append({'case': {'old': old, 'new': new}, 'detail': 'the temporary file was left behind'})
+            if old is not None and _content(old) == newc:
+                st1 = os.stat(dst)
+                if (st1.st_ino, st1.st_mtime_ns) != (st0.st_ino, st0.st_mtime_ns):
+                    fails.append({'case': {'old': old, 'new': new}, 'detail': 'an unchanged output was touched (inode or mtime changed)'})
+    return len(chunk), nt, fails
+
+
 def run_c06(REG, tier, seed, jobs):
     parts = []
+    sizes = [0, 1, 15, 16, 17, BLK - 1, BLK, BLK + 1, 2 * BLK, 4096, 8192, 131072 + 5]
+    if tier != 'quick':
+        sizes += [1 << k for k in range(9, 21)] + [3 * BLK, 1000, 1000000]
+    conts = [('k', n) for n in sizes] + [('k', n, 'X') for n in sizes[:9]]
+    pairs = [(o, n) for o in [None] + conts for n in conts]
+    ev, nt, fails = pmap(_rid_chunk, chunked(iter(pairs), 40), jobs)
+    parts.append({'name': 'C06/bounded/replace_if_different-on-real-files', 'function': 'replace_if_different', 'bound': f'{len(pairs)} (previous content | absent, new content) pairs; lengths {sizes} incl. prefixes of one another and block multiples',
+                  'evaluations': ev, 'distinct_nontrivial': nt, 'rule': 'non-trivial: the destination exists with a different content', 'exhaustive': True, 'failures': fails})
     namesets = [('b', 'a', 'c'), ('x/Config.h', 'x/config.h', 'y'), ('libFoo.a', 'libfoo.a'), ('a b', 'a$b', 'A'), ('Z', 'z', 'ab', 'aB', 'Ab')]
     ev, nt, fails = pmap(_order_chunk, chunked(iter(namesets), 1), min(jobs, len(namesets)))
     parts.append({'name': 'C06/bounded/deps-text-independent-of-hash-seed', 'function': 'NinjaBuildElement.write', 'bound': f'{len(namesets)} dependency sets (case-colliding names included) x 6 PYTHONHASHSEED values in fresh interpreters',
@@ -96,6 +146,7 @@ def run_c06(REG, tier, seed, jobs):
 
 
 CHECKS = {
+    'C06/bounded/replace_if_different-on-real-files': (_rid_chunk, lambda c: (None if c['old'] is None else tuple(c['old']), tuple(c['new']))),
     'C04/bounded/no-path-produced-twice': (_dup_chunk, lambda c: tuple((r, tuple(o)) for r, o in c['statements'])),
     'C06/bounded/deps-text-independent-of-hash-seed': (_order_chunk, lambda c: tuple(c['deps'])),
 }
